@@ -1,10 +1,13 @@
 #!/usr/bin/env python3
-"""Records the present differences of the sibling groups of R02.9 as the table of confirmed differences
-(tables/sibling_groups.json). Run by hand after reading the differences; never run by a check."""
-import json, os, sys
+"""Records the present differences of the sibling groups of R02.3 and R02.9 as the tables of confirmed
+differences (tables/select_siblings.json, tables/sibling_groups.json). Run by hand after reading the
+differences (the reasons below were written after reading them); never run by a check. Prints the number
+of entries per group so that a regeneration can be compared with the previous table."""
+import json, os, re, sys
 VERIF = os.path.dirname(os.path.dirname(os.path.abspath(__file__)))
 sys.path.insert(0, os.path.join(VERIF, "rules"))
-from r_select import SIBLING_GROUPS, sk_items
+import r_select
+from r_select import sk_items, SIBLING_GROUPS, unified_skeletons, SELECT_FNS, NEW_FNS, OPAQUE, NEW_PARAM_TERMS
 from ir import Facts
 from extract import get_facts
 p, _ = get_facts()
@@ -13,15 +16,47 @@ REASONS = {
     "ef-scan": "index_of additionally rejects values above u, stops at the end of the high bits and tests for equality/overshoot; succ_unchecked relies on its caller's contract (read and confirmed)",
     "select-small": "zero-selecting counterpart: zeros before position p are p - ones, so counters are compared as block position minus (upper ones + absolute), upper ranks as (i << 32) - ones, and a linear partition point replaces the binary one (read and confirmed)",
 }
-tab = {"_comment": "R02.9: confirmed differences between sibling implementations (exact skeleton item, which sibling has it, why). Anything else present in one sibling only is reported."}
+ADAPT_REASONS = {
+    ("SelectAdapt", "SelectZeroAdapt"): "run-time adaptivity preamble: the non-const variants derive ones_per_inventory, log2_u64_per_subinventory = max.min(log2_ones_per_inventory - 2) and log2_ones_per_sub16 at run time; the const variants take them from const parameters (read and confirmed)",
+    ("SelectZeroAdapt", "SelectZeroAdaptConst"): "the zero variants clip the zeros of the (negated) last word to the known number of zeros (the spurious zeros after the end must not be counted); repaired form of F-17 (read and confirmed)",
+    ("SelectAdapt", "SelectAdaptConst"): "counterpart of the clip above: the ones variants count the word (masked by the `word` helper for the last word, F-1) -- same quantity, other spelling (read and confirmed)",
+}
+def listify(x):
+    return [listify(y) for y in x] if isinstance(x, tuple) else x
+
+
+tab = {"_reference": {}, "_comment": "R02.9: confirmed differences between sibling implementations (exact skeleton item, which sibling has it, why). Anything else present in one sibling only is reported. _reference: the skeleton of the first sibling of each group as it was when the differences were confirmed (used only to carry its local names over renames)."}
 for g in SIBLING_GROUPS:
     bodies = [F.one(x) for x in g["fns"]]
-    sks = [sk_items(F, b, g["opaque"]) for b in bodies]
+    sks = unified_skeletons(F, bodies, g["opaque"])
     union = set().union(*sks); common = set.intersection(*sks)
     rows = []
     for it in sorted(union - common, key=repr):
         have = [g["labels"][i] for i, s in enumerate(sks) if it in s]
         rows.append({"item": repr(it[0]) if it[1] == 1 else repr(it), "only_in": have, "reason": REASONS[g["name"]]})
     tab[g["name"]] = rows
+    tab["_reference"][g["name"]] = [listify(sorted(sk_items(F, b, g["opaque"]), key=repr)) for b in bodies]
     print(g["name"], len(common), "common,", len(rows), "confirmed differences")
 json.dump(tab, open(os.path.join(VERIF, "tables", "sibling_groups.json"), "w"), indent=1)
+
+names = ["SelectAdapt", "SelectAdaptConst", "SelectZeroAdapt", "SelectZeroAdaptConst"]
+tab2 = {"_reference": {}, "_comment": "R02.3: confirmed legitimate differences between the four adaptive selectors (exact skeleton items -- an item with a count is `(item, n)` --, the siblings they occur in, and why). Any other item present in some siblings only is reported."}
+for what, paths in (("select_unchecked", SELECT_FNS), ("constructor", NEW_FNS)):
+    bodies = [F.one(x) for x in paths]
+    sks = unified_skeletons(F, bodies, OPAQUE, NEW_PARAM_TERMS if what == 'constructor' else None)
+    union = set().union(*sks); common = set.intersection(*sks)
+    rows = []
+    for it in sorted(union - common, key=repr):
+        have = [names[i] for i, s in enumerate(sks) if it in s]
+        base = repr(it[0]) if it[1] == 1 else repr(it)
+        reason = ADAPT_REASONS.get(tuple(have))
+        if reason is not None and ("'WORD'" in base or ("'word'" in base and tuple(have) in (("SelectAdapt", "SelectAdaptConst"), ("SelectZeroAdapt", "SelectZeroAdaptConst")))):
+            reason = "same statement in the four files; the ones variants read the word of the bit vector in place (bits[i]) where the zero variants bind its complement to a local first, so the operand is spelled differently (read and confirmed)"
+        if reason is None:
+            print("   UNEXPLAINED difference in", what, have, base[:200])
+            continue
+        rows.append({"item": "^" + re.escape(base) + "$", "only_in": have, "reason": reason})
+    tab2[what] = rows
+    tab2["_reference"][what] = [listify(sorted(sk_items(F, b, OPAQUE, None, pt), key=repr)) for b, pt in zip(bodies, (NEW_PARAM_TERMS if what == 'constructor' else [None] * 4))]
+    print(what, len(common), "common,", len(rows), "confirmed differences")
+json.dump(tab2, open(os.path.join(VERIF, "tables", "select_siblings.json"), "w"), indent=1)
